@@ -17,4 +17,8 @@ def isFileE (os : OS) (p : Path) : Except Unit Bool := if os.kind p = .error the
 /-- `generate_directory_listing(p, …)` inside `try … except Exception` -/
 def listingE (os : OS) (p : Path) : Except Unit (List Name) := match os.listing p with | some l => .ok l | none => .error ()
 
+/-- `p.relative_to(root)`: the rest of the path below `root`, or ValueError when `root` is not a prefix of it (component by component) -/
+def relativeToE (p root : Path) : Except Unit Path :=
+  if root.isPrefixOf p then .ok (p.drop root.length) else .error ()
+
 end Fs
